@@ -1,5 +1,5 @@
 (** * C11 — recorded market-data histories are complete, aligned and faithful *)
-From Bourse Require Import Model.Types Model.Book Model.Obs Model.Rng Model.Env Model.EnvObs Proofs.EnvProps.
+From Bourse Require Import Model.Types Model.Book Model.Obs Model.Rng Model.Env Model.EnvObs Proofs.EnvProps Proofs.Ledger Proofs.StepVolume.
 
 (** What a step records: exactly one record per asset, which is that asset's
     level-2 data at the end of the step (bid fields from the bid getters, ask
@@ -23,6 +23,20 @@ Theorem c11_records_grow : forall L e g e' g',
   Forall2 (fun t t' => exists v, t' = t ++ [v]) (en_tvols e) (en_tvols e').
 Proof. exact records_grow. Qed.
 
+(** The per-step traded volume is the volume of the trades logged during the step:
+    for every asset the step appends some trades [new] to the trade log, the
+    counter it records is exactly [sumv new] (the counter is reset at the start of
+    the step), and each of those trades is time-stamped inside the step's batch,
+    [start <= t < start + number of instructions]. *)
+Theorem c11_step_volume_is_logged_trades : forall L e g e' g',
+  menv_step L e g = Ok (e', g') ->
+  exists start, market_time (en_market e) = Ok start /\
+    Forall2 (fun b b' => exists new, b_trades b' = b_trades b ++ new /\ b_tvol b' = sumv new /\
+                          Forall (fun tr => start <= tr_t tr < start + N.of_nat (length (en_queue e))) new)
+            (en_market e) (en_market e') /\
+    en_tvols e' = map (fun p => fst p ++ [b_tvol (snd p)]) (combine (en_tvols e) (en_market e')).
+Proof. exact step_volume_is_logged_trades. Qed.
+
 (** Submissions and toggles never touch the histories (C10's theorems), so the
     series change only in [menv_step]. *)
 Check c11_step_records.
@@ -40,3 +54,4 @@ Proof. vm_compute. reflexivity. Qed.
 
 Print Assumptions c11_step_records.
 Print Assumptions c11_records_grow.
+Print Assumptions c11_step_volume_is_logged_trades.
